@@ -92,6 +92,10 @@ func (t *T) IsUnknownType() bool {
 }
 
 func (t *T) IsClassType() bool {
+	if t == nil {
+		return false
+	}
+
 	return t.tType == CLASS
 }
 
